@@ -28,8 +28,10 @@ def _sorted_keys(keys):
 
 def LabelledMismatches(mismatches, details=None):
     """A collection of mismatches, each labelled."""
+    # (A list: the mismatch is described more than once - a generator would be
+    # spent after the first describe().)
     return MismatchesAll(
-        (PrefixedMismatch(k, mismatches[k]) for k in _sorted_keys(mismatches)),
+        [PrefixedMismatch(k, mismatches[k]) for k in _sorted_keys(mismatches)],
         wrap=False,
     )
 
